@@ -184,8 +184,12 @@ type readCmd struct {
 }
 
 var tickMs atomic.Int64
+var streamSize atomic.Int64 // capacity of the runner's output stream (0: the code's 1000)
 
 func tune(name string, def int64) int64 {
+	if name == "sourcerunner.outputStreamSize" {
+		return streamSize.Load()
+	}
 	if name == "sourcerunner.watermarkTickMs" {
 		if v := tickMs.Load(); v > 0 {
 			return v
